@@ -180,6 +180,9 @@ fn cmd_journal_run(args: &[String]) -> i32 {
     let run: usize = args[5].parse().unwrap_or(0);
     runner::set_journal_property(&args[2]);
     runner::set_journal(Some(PathBuf::from(&args[6])));
+    // the same backstop as in a worker (compound ops re-arm it per library call): exit 3 = an op
+    // really does not return; exit 0 = the run completes
+    runner::spawn_watchdog(|_| std::process::exit(3));
     let _ = runner::run_one(def.run, seed, &args[2], tier, run);
     0
 }
@@ -223,35 +226,72 @@ fn cmd_check(args: &[String]) -> i32 {
     let on_stuck = {
         let id2 = id.clone();
         let rd = replay_dir.clone();
-        move |run: usize| {
-            // a real (non-RNG) hang: reproduce that single run in a child with the journal on,
-            // let it hang again, and hand the journalled in-flight schedule out as the replay
+        move |run: usize| -> bool {
+            // an op exceeded the wall-clock backstop. Re-execute that single run in a child with the
+            // journal on. If it hangs again, the journalled in-flight schedule is the replay
+            // (returns true). If the child finishes by itself, nothing hangs: the first
+            // observation was the machine (a stalled or suspended VM, extreme load), not the
+            // library (returns false).
             std::fs::create_dir_all(&rd).ok();
             let file = rd.join(format!("{id2}-{seed}-{run}-timeout.json"));
             let exe = std::env::current_exe().unwrap();
+            let mut hung = true;
             if let Ok(mut child) = std::process::Command::new(exe)
                 .args(["journal-run", &id2, tier.name(), &seed.to_string(), &run.to_string(), file.to_str().unwrap()])
                 .spawn()
             {
-                std::thread::sleep(std::time::Duration::from_secs(runner::HANG_SECS + 5));
+                let t0 = Instant::now();
+                // the child applies the same backstop to itself and exits 3 if an op hangs again;
+                // a run may legitimately take long as a whole (thorough-tier long histories)
+                loop {
+                    std::thread::sleep(std::time::Duration::from_millis(500));
+                    if let Ok(Some(st)) = child.try_wait() {
+                        hung = st.code() != Some(0);
+                        break;
+                    }
+                    if t0.elapsed() > std::time::Duration::from_secs(3600) {
+                        break;
+                    }
+                }
                 let _ = child.kill();
+                let _ = child.wait();
             }
-            println!("VIOLATION property={id2} replay={} outcome=timeout", file.display());
+            if hung {
+                println!("VIOLATION property={id2} replay={} outcome=timeout", file.display());
+            } else {
+                let _ = std::fs::remove_file(&file);
+                println!("HARNESS NOTE: an op of run {run} exceeded the {} s wall-clock backstop, but the run completes when re-executed alone: a stall of the machine, not of the library; the batch is repeated", runner::HANG_SECS);
+            }
+            hung
         }
     };
-    runner::spawn_watchdog(on_stuck.clone());
+    {
+        let f = on_stuck.clone();
+        runner::spawn_watchdog(move |run| {
+            f(run);
+        });
+    }
     let runs = (def.runs)(tier);
     println!("gmsim: property={id} tier={} seed={seed} runs={runs} tree={}", tier.name(), runner::tree_rev());
-    let m = match runner::run_all(def.run, def.isolated, seed, &id, tier, runs, journal_all) {
-        Ok(m) => m,
-        Err(runner::WorkerFail::Stuck(run)) => {
-            on_stuck(run);
-            return 1;
-        }
-        Err(runner::WorkerFail::Died(code)) => {
-            // the wrapper re-runs the batch serially with the journal on to find the op that died
-            println!("gmsim: a worker process ended abnormally (status {code})");
-            return if code == 101 || code == 2 { code } else { 134 };
+    let mut attempts = 0;
+    let m = loop {
+        attempts += 1;
+        match runner::run_all(def.run, def.isolated, seed, &id, tier, runs, journal_all) {
+            Ok(m) => break m,
+            Err(runner::WorkerFail::Stuck(run)) => {
+                if on_stuck(run) {
+                    return 1;
+                }
+                if attempts >= 3 {
+                    println!("HARNESS ERROR: the wall-clock backstop fired three times without any run hanging when re-executed: this machine is too unsteady to judge hangs");
+                    return 2;
+                }
+            }
+            Err(runner::WorkerFail::Died(code)) => {
+                // the wrapper re-runs the batch serially with the journal on to find the op that died
+                println!("gmsim: a worker process ended abnormally (status {code})");
+                return if code == 101 || code == 2 { code } else { 134 };
+            }
         }
     };
     let sim_wall = t0.elapsed().as_secs_f64();
